@@ -467,7 +467,10 @@ R_<TG_, TA_>::initialEnter() noexcept {
 			pendingTransitions.clear();
 		}
 		else {
+			// a round that changes nothing pending leaves nothing behind either
+			// ('re-run in place' marks would change how the approved rounds are applied, unseen by any guard)
 			HFSM2_IF_TRANSITION_HISTORY(_core.transitionTargets = targetsBackup);
+			_core.registry.restore(backup);
 			_core.requests.clear();
 		}
 	}
@@ -583,7 +586,10 @@ R_<TG_, TA_>::processTransitions(TransitionSets& currentTransitions) noexcept {
 			pendingTransitions.clear();
 		}
 		else {
+			// a round that changes nothing pending leaves nothing behind either
+			// ('re-run in place' marks would change how the approved rounds are applied, unseen by any guard)
 			HFSM2_IF_TRANSITION_HISTORY(_core.transitionTargets = targetsBackup);
+			_core.registry.restore(backup);
 			_core.requests.clear();
 		}
 	}
